@@ -13,6 +13,8 @@ EXTENDS Browser, Origins, Json, IOUtils
 
 Trace == ndJsonDeserialize(IOEnv.TRACE_FILE)
 NameOrderDef == <<>>   \* not used by the browser algorithms
+AcrhOKUnused(s, r) == TRUE
+AcrhEchoUnused(r) == <<>>
 
 VARIABLES l, sem, pats, bad, nPre, nYes
 vars == <<l, sem, pats, bad, nPre, nYes>>
